@@ -1202,6 +1202,13 @@ private:
     typedef typename extend_table<library_sm>::type complete_table;
      // build a sequence of regions
      typedef typename get_regions_as_sequence<typename Derived::initial_state>::type seq_initial_states;
+    // sets m_event_processing and makes sure it is reset when the scope is left, also through an exception
+    struct event_processing_guard
+    {
+        explicit event_processing_guard(bool& flag):m_flag(flag){m_flag = true;}
+        ~event_processing_guard(){m_flag = false;}
+        bool& m_flag;
+    };
     // Member functions
 
     // start the state machine (calls entry of the initial state)
@@ -1211,7 +1218,8 @@ private:
          ::boost::mpl::for_each< seq_initial_states, ::boost::msm::wrap<mpl::placeholders::_1> >
                         (init_states(m_states));
         // block immediate handling of events generated by the entry actions
-        m_event_processing = true;
+        // (the guard also resets the flag if an entry action throws)
+        event_processing_guard guard(m_event_processing);
         // call on_entry on this SM
         (static_cast<Derived*>(this))->on_entry(fsm_initial_event(),*this);
         ::boost::mpl::for_each<initial_states, boost::msm::wrap<mpl::placeholders::_1> >
@@ -1232,7 +1240,8 @@ private:
         ::boost::mpl::for_each< seq_initial_states, ::boost::msm::wrap<mpl::placeholders::_1> >
                         (init_states(m_states));
         // block immediate handling of events generated by the entry actions
-        m_event_processing = true;
+        // (the guard also resets the flag if an entry action throws)
+        event_processing_guard guard(m_event_processing);
         // call on_entry on this SM
         (static_cast<Derived*>(this))->on_entry(incomingEvent,*this);
         ::boost::mpl::for_each<initial_states, boost::msm::wrap<mpl::placeholders::_1> >
@@ -2811,7 +2820,8 @@ BOOST_PP_REPEAT(BOOST_PP_ADD(BOOST_MSM_VISITOR_ARG_SIZE,1), MSM_VISITOR_ARGS_EXE
         // by default we activate the history/init states, can be overwritten by direct_event_start_helper
         region_entry_exit_helper< ::boost::mpl::int_<0> >::do_entry(this,incomingEvent);
         // block immediate handling of events
-        m_event_processing = true;
+        // (the guard also resets the flag if an entry action throws)
+        event_processing_guard guard(m_event_processing);
         // if the event is generating a direct entry/fork, set the current state(s) to the direct state(s)
         direct_event_start_helper(this)(incomingEvent,fsm);
         // handle messages which were generated and blocked in the init calls
